@@ -23,7 +23,14 @@ def _run_harness_chunk(exe, blocks, watchdog):
     out_all = []
     notes = []
     i = 0
+    hangs = 0
     while i < len(blocks):
+        if hangs >= 2:
+            # two scenarios of this batch already ran into the watchdog: the run is failing anyway;
+            # the rest of the batch is not run (each further hang would cost a full watchdog period)
+            for b in blocks[i:]:
+                notes.append((b[0], -99, "not run: two scenarios of this batch already hung"))
+            break
         data = "".join(b[1] for b in blocks[i:])
         env = dict(os.environ, ASAN_OPTIONS=ASAN_ENV, UBSAN_OPTIONS="print_stacktrace=1:log_path=stdout", TSAN_OPTIONS="halt_on_error=0:log_path=stdout")
         try:
@@ -48,12 +55,15 @@ def _run_harness_chunk(exe, blocks, watchdog):
         # scenario is the last one listed as done
         if rc == 3 and done and started and started[-1] == done[-1]:
             bad = done[-1]
+            hangs += 1
             notes.append((bad, rc, "watchdog"))
             idx = next(k for k in range(i, len(blocks)) if blocks[k][0] == bad)
             i = idx + 1
         # crashed or hung inside scenario `started[-1]` (if it has no E line)
         elif started and (not done or started[-1] != done[-1]):
             bad = started[-1]
+            if rc == -9:
+                hangs += 1
             notes.append((bad, rc, err[-4000:]))
             # skip past it
             idx = next(k for k in range(i, len(blocks)) if blocks[k][0] == bad)
